@@ -231,6 +231,7 @@ func genChan(g *simrt.Rng, e *Env, nCli, maxMsg, maxSize int, ends []int) ChanPl
 			c.RecvCtx[side] = 1 + g.IntN(2)
 			c.RecvCtxUs[side] = simrt.Pick(g, 1, 20, 300, 3000, 50000)
 		}
+		c.RecvPoll[side] = g.Bool(0.15)
 		if g.Bool(0.08) {
 			c.SendCtx[side] = 1 + g.IntN(2)
 			c.SendCtxUs[side] = simrt.Pick(g, 1, 20, 300, 3000, 50000)
